@@ -81,6 +81,9 @@ def parse_h1(out: bytes, methods: List[str], server_closed: bool = True) -> dict
                 elif isinstance(ev, h11.ConnectionClosed):
                     break
         except h11.RemoteProtocolError as e:
+            # the connection ended where a response (or the rest of one) was still expected
+            if cur is None and "ConnectionClosed" in str(e):
+                break
             error = str(e)
             break
         if not done:
